@@ -274,6 +274,9 @@ func RunCase(seed int64, p *Profile, idx int) *Result {
 		RunTail(w, adv, p, res)
 	}
 	w.Mon.Finish()
+	for _, id := range w.Order {
+		w.Nodes[id].W.VerifObserveRecoveredPanics(nil) // the hook registry must not keep this world alive
+	}
 	copy(res.Sched[:], hasher.Sum(nil))
 	res.Viol = w.Mon.Viol
 	res.Stats = w.Mon.Stats
